@@ -120,10 +120,17 @@ class Ctx:
         self.stats["transitions"] += st["transitions"]
         self.stats["tlc_wall_s"] += st["wall_s"]
         self.nevents += len(evs)
+        import hashlib
+
+        from .pv import nontrivial_label
+
         for ev in evs:
             r = res[ev["id"]]
             lab = "|".join(str(x) for x in ([ev["op"]] + list(r["c"])))
             self.labels[lab] += 1
+            if nontrivial_label(lab):
+                key = json.dumps([ev["op"], ev["a"], ev["pre"]], sort_keys=True, separators=(",", ":"))
+                self.nontrivial.add(hashlib.blake2b(key.encode(), digest_size=8).digest())
             if r["v"]:
                 ev["verdict"] = r
                 self.kept[ev["id"]] = ev
@@ -146,6 +153,7 @@ class Ctx:
     def summary(self):
         return {"prop": self.prop, "backend": self.backend, "slice": self.i, "events": self.nevents,
                 "labels": dict(self.labels), "bad": list(self.kept.values()), "samples": self.samples,
+                "distinct_nontrivial": len(self.nontrivial),
                 "stats": self.stats, "extra": self.extra, "wall_s": time.time() - self.t_start}
 
 
